@@ -211,6 +211,15 @@ func checkC16(c *Check) {
 	runGenEngines(c, genOpts{entries: entries, order: true, guard: true, deref: true, rec: true})
 	c16DepthIsMax(c)
 	c16RecordOnAllPaths(c)
+	// each script is the content of a buffer held in the view: it must be empty
+	// when the generation of one application's script starts
+	nb := freshBuffers(c, "FRESH-BUFFER", func(f *ssa.Function) bool {
+		return fnPkgPath(f) == repoMod+"/pkg/database" || strings.Contains(c.P.fnFile(f), "cmd_databasescript")
+	})
+	c.Counts["buffer_returning_call_sites"] = nb
+	if nb < 3 {
+		c.Undecidedf("FRESH-BUFFER", "call sites", "-", "expected the calls of the two script generators, found %d", nb)
+	}
 	// delta path: sorted by name (information: the modify path must sort its table list)
 	sorted := false
 	for _, f := range methodsOfType(p, "pkg/database", "ScriptView") {
@@ -241,6 +250,19 @@ func checkC17(c *Check) {
 		return
 	}
 	runGenEngines(c, genOpts{entries: entries, order: true, guard: true, deref: true, rec: true})
+	// the command that hands the relational model to the script: a refusal by
+	// Normalize must reach the user, not be overwritten
+	cmdFns := map[*ssa.Function]bool{}
+	for _, f := range p.RepoFuncs() {
+		if strings.HasSuffix(p.fnFile(f), "cmd/sysl/cmd_transform.go") {
+			cmdFns[f] = true
+		}
+	}
+	if len(cmdFns) == 0 {
+		c.Undecidedf("ANCHOR", "transform command", "-", "no function of cmd/sysl/cmd_transform.go loaded")
+	}
+	c.Counts["transform_command_functions"] = len(cmdFns)
+	c.Counts["transform_command_dead_errors"] = deadErrors(c, "DEAD-ERROR", cmdFns)
 	c10Appends(c, repoMod+"/pkg/arrai/relmod", "RETAINED-APPEND")
 	var ns []*ssa.Function
 	if f := p.FuncByName("pkg/arrai/relmod.normalizeStatement"); f != nil {
